@@ -61,7 +61,7 @@ func newParams(v variant) *config.Configuration {
 	cr := &p.CRConfiguration
 	cr.MemberCount = 3
 	cr.CRAgreementCount = 2
-	cr.ProposalCRVotingPeriod = 2
+	cr.ProposalCRVotingPeriod = 4
 	cr.ProposalPublicVotingPeriod = 2
 	cr.CRVotingStartHeight = startH
 	cr.CRCommitteeStartHeight = 20
@@ -69,7 +69,7 @@ func newParams(v variant) *config.Configuration {
 	cr.VotingPeriod = 8
 	cr.CRClaimPeriod = 3
 	cr.DepositLockupBlocks = 3
-	cr.CRClaimDPOSNodeStartHeight = 24
+	cr.CRClaimDPOSNodeStartHeight = 33
 	cr.CRClaimDPOSNodePeriod = 5
 	cr.ChangeCommitteeNewCRHeight = 0
 	cr.CRAssetsRectifyTransactionHeight = 200000000
@@ -92,6 +92,7 @@ type world struct {
 	refs   map[string]common2.Output
 	blocks [][]interfaces.Transaction // index = height - startH
 	descr  [][]string
+	quirk  bool // a candidate was unregistered in its activation block (stays Active with a CancelHeight)
 }
 
 func (w *world) newEnv() *crkit.Env {
@@ -141,6 +142,8 @@ type gen struct {
 	wdTxs    []common.Uint256
 	fundTxs  []interfaces.Transaction
 	kinds    map[string]int
+	rej      map[string]int
+	scripted bool // register everybody at once and vote broadly (elections mostly succeed)
 	rejected int
 }
 
@@ -169,9 +172,16 @@ func (g *gen) blockTxs() ([]interfaces.Transaction, []string) {
 	var pu common.Fixed64
 	add := func(kind string, tx interfaces.Transaction, check bool, refs map[*common2.Input]common2.Output) bool {
 		if check {
-			ok, _, pk := g.e.Check(tx, h, pu, refs)
+			ok, msg, pk := g.e.Check(tx, h, pu, refs)
 			if pk || !ok {
 				g.rejected++
+				if i := strings.LastIndex(msg, ":"); i >= 0 {
+					msg = msg[i+1:]
+				}
+				if len(msg) > 48 {
+					msg = msg[:48]
+				}
+				g.rej[strings.SplitN(kind, " ", 2)[0]+": "+msg]++
 				return false
 			}
 		}
@@ -190,6 +200,9 @@ func (g *gen) blockTxs() ([]interfaces.Transaction, []string) {
 	if h <= 12 || (h >= 16 && h <= 19) {
 		n += 4
 	}
+	if g.scripted && h == 10 {
+		n += 12
+	}
 	if !firstTerm && cm.InElectionPeriod {
 		n += 1
 	}
@@ -201,6 +214,25 @@ func (g *gen) blockTxs() ([]interfaces.Transaction, []string) {
 		}
 		if !firstTerm && cm.InElectionPeriod && !inVoting && x < 48 && rng.Chance(70) {
 			x = 48 + rng.Intn(50) // proposals, reviews, tracking, withdrawals while the council sits
+		}
+		forceProposalVote := false
+		if !firstTerm {
+			for _, p := range g.props {
+				if ps := cm.GetProposal(p.hash); ps != nil {
+					if ps.Status == state.Registered && rng.Chance(60) {
+						x = 60 // review
+					}
+					if ps.Status == state.CRAgreed && rng.Chance(30) {
+						x, forceProposalVote = 72, true
+					}
+				}
+			}
+		}
+		if g.scripted && h == 10 {
+			x = 0
+		}
+		if g.scripted && h >= 16 && h <= 19 && rng.Chance(70) {
+			x = 40
 		}
 		switch {
 		case x < 14 || (early && x < 50): // register
@@ -229,6 +261,11 @@ func (g *gen) blockTxs() ([]interfaces.Transaction, []string) {
 				continue
 			}
 			usedCand[i] = true
+			if c.CancelHeight != 0 || (c.State == state.Pending && h-c.RegisterHeight+1 >= state.ActivateDuration) {
+				// unregistered in the block that activates it (both closures are built from
+				// the pre-block state, activation wins), or unregistered a second time
+				g.w.quirk = true
+			}
 			add(fmt.Sprintf("unregisterCR c%d", i), crkit.UnregisterCR(cands[i], nn()), false, nil)
 		case x < 30: // return deposit
 			i := rng.Intn(nCands)
@@ -320,7 +357,7 @@ func (g *gen) blockTxs() ([]interfaces.Transaction, []string) {
 				continue
 			}
 			m := g.memberKey(ms[mi].Info.DID)
-			if add(fmt.Sprintf("review p%d m%d", pi, mi), crkit.Review(m, g.props[pi].hash, payload.VoteResult(rng.PickI64(0, 0, 0, 1, 2)), nn()), true, nil) {
+			if add(fmt.Sprintf("review p%d m%d", pi, mi), crkit.Review(m, g.props[pi].hash, payload.VoteResult(rng.PickI64(0, 0, 0, 0, 0, 0, 1, 2)), nn()), true, nil) {
 				usedProp[key] = true
 			}
 		case x < 74: // votes against a proposal / impeachment
@@ -330,10 +367,10 @@ func (g *gen) blockTxs() ([]interfaces.Transaction, []string) {
 			}
 			var content outputpayload.VoteContent
 			ms := cm.GetCurrentMembers()
-			if rng.Bool() && len(g.props) > 0 {
+			if (forceProposalVote || rng.Bool()) && len(g.props) > 0 {
 				p := g.props[rng.Intn(len(g.props))]
 				content = outputpayload.VoteContent{VoteType: outputpayload.CRCProposal, CandidateVotes: []outputpayload.CandidateVotes{
-					{Candidate: p.hash.Bytes(), Votes: common.Fixed64(rng.PickI64(5*ela, 1000000000000000))}}}
+					{Candidate: p.hash.Bytes(), Votes: common.Fixed64(rng.PickI64(5*ela, 6*ela, 7*ela, 8*ela, 1000000000000000))}}}
 			} else if len(ms) > 0 {
 				sort.Slice(ms, func(a, b int) bool { return ms[a].Info.DID.Compare(ms[b].Info.DID) < 0 })
 				content = outputpayload.VoteContent{VoteType: outputpayload.CRCImpeachment, CandidateVotes: []outputpayload.CandidateVotes{
@@ -449,8 +486,9 @@ func (g *gen) blockTxs() ([]interfaces.Transaction, []string) {
 
 func generate(rng *lib.Rng, v variant, nblocks int) (*world, *gen) {
 	w := &world{v: v, refs: map[string]common2.Output{}}
-	g := &gen{w: w, rng: rng, h: startH - 1, regTx: map[int]interfaces.Transaction{}, voteTx: map[int]interfaces.Transaction{}, kinds: map[string]int{}}
+	g := &gen{w: w, rng: rng, h: startH - 1, regTx: map[int]interfaces.Transaction{}, voteTx: map[int]interfaces.Transaction{}, kinds: map[string]int{}, rej: map[string]int{}}
 	g.e = w.newEnv()
+	g.scripted = rng.Chance(75)
 	for i := 0; i < nblocks; i++ {
 		txs, ds := g.blockTxs()
 		if blockchain.CheckDuplicateTx(crkit.Block(g.h+1, txs)) != nil {
@@ -557,6 +595,9 @@ func main() {
 			st.Hist["tx:"+k] += n
 		}
 		st.Hist["tx-rejected-by-check"] += g.rejected
+		for k, n := range g.rej {
+			st.Hist["rejected "+k] += n
+		}
 		cm := g.e.Committee
 		nontrivial := len(cm.GetCurrentMembers()) > 0 || len(cm.GetAllCandidates()) > 0
 		for t := 0; t < evals; t++ {
@@ -571,6 +612,9 @@ func main() {
 		seen := map[string]bool{}
 		for _, f := range fs {
 			sig := "C22:" + f.mode + ":" + f.field
+			if w.quirk && (f.field == ".State.Candidates" || f.field == ".State.Nicknames" || f.field == ".State.HistoryCandidates") {
+				sig = "C22:unregister-in-activation-block:" + f.field
+			}
 			if seen[sig] {
 				continue
 			}
